@@ -29,6 +29,12 @@ CHECKS = {
  "C12": ("exploration", "differential property test (linear_extract vs get_file) over generated interleaved archives, subsets and throttled/interrupting sinks, plus refimpl-built negative archives without end marker / cut mid-record",
          "Each chosen sink must receive exactly the bytes per-file extraction returns, absent names nothing; archives whose block stream lacks the end-of-data marker or is cut inside a record (valid index appended so that they open) must make linear_extract fail.",
          "Negative cases that by accident still parse to a marker byte under an independent record parser are excluded and counted.", "DESIGN.md section 4 C12"),
+ "C13": ("exploration", "differential property test over generated transfer schedules: throttled / interrupting sinks for the writer, throttled Read+Seek and Read sources for the reader and for repair, compared with in-memory transfers",
+         "The same program written through a sink accepting 1..n bytes per call (with injected Interrupted) must read back to the model (and be byte-identical up to the end marker without layers); reading and repairing (intact and truncated, both modes) through a source returning 1..n bytes per read must give the same listing, contents, hashes and repair result as from memory.",
+         "Sinks/sources obey the std Write/Read contracts (no Ok(0) on a non-empty request before the end).", "DESIGN.md section 4 C13"),
+ "C14": ("exploration", "property test over generated programs with flushes: repair of every flush snapshot compared with the model of what had been appended",
+         "A recording sink captures the bytes held by the destination each time flush() returns; unauthenticated repair of that snapshot must recover at least every byte appended before the flush, authenticated repair at least what lies in completed chunks, for all layer sets, levels and data entropies.",
+         "The snapshot is taken at the destination's flush() call, which the writer issues last.", "DESIGN.md section 4 C14"),
  "C11": ("exploration", "differential property test against io::Cursor over refimpl-encoded layer streams (exhaustive length sweep on scaled constants + random seek/read histories)",
          "Layer streams of every plaintext length (every residue modulo chunk and block on the scaled build, boundary windows on the production build) are encoded by an independent implementation of the format; the library's layer readers, stacked as mlar does, must return the same positions and bytes as an in-memory cursor for generated seek/read histories within [0, L].",
          "Trusts refimpl (anchored to FORMAT.md by a self-test on samples/archive_v1.mla), the aes-gcm / brotli / x25519-dalek / hkdf crates.", "DESIGN.md section 4 C11"),
